@@ -36,7 +36,7 @@
 //!   `rej <who> <t> <subid>`                  ReportData disowned (InvalidSubscription)
 //!   `tab <t> <entries> <reporting>`          the device's table changed; entry = id/peer/min/max/ra/rt/fc
 //!                                            (ra: ms or `M` = not primed, rt: ms or `m` = none)
-//!   `res <id:sel,...>`                       (only `up`) what the resumed subscriptions select, from the persisted records
+//!   `res <id:sel,...>`                       (only `up`) id and selection of the persisted records, in slot order
 //!   `dev <values>` / `subv <who> <alive id:sel,...> <view>`   (only `obs`; sel `u` = adopted from a report)
 use core::future::Future;
 use core::num::NonZeroU8;
@@ -769,9 +769,10 @@ fn evict_idle_unsecured(m: &Matter) {
     });
 }
 
-/// What the persisted records select, in slot order (`load_persist` re-adds them in that order, so the
-/// record of slot k becomes the resumed subscription k+1): `w` = a wildcard attribute path, `l` = a list.
-fn persisted_selections(kv: &MemKv) -> Vec<&'static str> {
+/// What the persisted records hold, in slot order: the subscription id (trailing optional field 5 of the
+/// record; a record without it is resumed under a fresh id, shown as 0) and what it selects
+/// (`w` = a wildcard attribute path, `l` = a list).
+fn persisted_selections(kv: &MemKv) -> Vec<(u32, &'static str)> {
     let mut v = Vec::new();
     let store = kv.0.borrow();
     for slot in 0..MAX_SUBS as u16 {
@@ -794,7 +795,8 @@ fn persisted_selections(kv: &MemKv) -> Vec<&'static str> {
             }
             Ok(if wild { "w" } else { "l" })
         })();
-        v.push(sel.unwrap_or("u"));
+        let id = TLVElement::new(data).structure().and_then(|st| st.find_ctx(5)).and_then(|e| e.u32()).unwrap_or(0);
+        v.push((id, sel.unwrap_or("u")));
     }
     v
 }
@@ -1014,7 +1016,7 @@ pub fn run_case(out: &mut Out, kind: &str, ops: &[String]) -> CaseFacts {
             // the op that brought us here is `up`: its output is the resumed table
             *world.last_tab.borrow_mut() = String::new();
             sample();
-            let res: Vec<String> = persisted_selections(&kvstore).iter().enumerate().map(|(k, s)| format!("{}:{}", k + 1, s)).collect();
+            let res: Vec<String> = persisted_selections(&kvstore).iter().map(|(id, s)| format!("{}:{}", id, s)).collect();
             let o = format!(
                 "{}{} ; res {}",
                 if started { "" } else { "startup-failed ; " },
